@@ -275,6 +275,18 @@ func solveAll(obls []*Obligation, outDir string, timeout time.Duration, thorough
 func (r *Result) OK() bool { return r.Status == r.O.Expect }
 
 func solveOne(o *Obligation, file string, timeout time.Duration, thorough bool) *Result {
+	r := solveOnce(o, file, timeout, thorough)
+	if (r.Status == "timeout" || r.Status == "unknown") && o.Expect == "unsat" {
+		// stragglers get one more round with four times the budget (all solvers in parallel)
+		r2 := solveOnce(o, file, 4*timeout, thorough)
+		r2.Tried = append(r.Tried, r2.Tried...)
+		r2.Secs += r.Secs
+		return r2
+	}
+	return r
+}
+
+func solveOnce(o *Obligation, file string, timeout time.Duration, thorough bool) *Result {
 	r := &Result{O: o, File: file, Status: "unknown"}
 	enough := 1
 	if thorough {
